@@ -254,8 +254,11 @@ def check_property(pid, tier, seed):
         hits = core.source_audit()
         declared, ax = [], {}
         if proof_broken is None:
-            for lm in lean_mods:
-                d1, ax1, raw, arc = core.axiom_audit(lm)
+            # the property modules are elaborated independently of each other: audit them in parallel
+            import concurrent.futures as cf
+            with cf.ThreadPoolExecutor(max_workers=min(8, max(1, len(lean_mods)))) as ex:
+                audits = list(ex.map(core.axiom_audit, lean_mods))
+            for lm, (d1, ax1, raw, arc) in zip(lean_mods, audits):
                 declared += d1
                 ax.update(ax1)
                 if arc != 0 and proof_broken is None:
